@@ -66,7 +66,8 @@ def generate(ctx):
             yield case
             continue
         if kind == 'frame' or kind == 'bus':
-            spec = F.random_spec(rng, max_rows=4, max_cols=4, min_cols=0, dtypes=_DT, row_kinds=['auto', 'str', 'int', 'IndexDate', 'hier2'],
+            spec = F.random_spec(rng, max_rows=4, max_cols=4, min_cols=0, dtypes=_DT if rng.random() < 0.88 else ['int64', 'float64'],
+                                 row_kinds=['auto', 'str', 'int', 'IndexDate', 'hier2'],
                                  col_kinds=['str', 'int', 'auto'], name_pool=(None, 'n'))
             # sprinkle missing values
             case['spec'] = spec
@@ -177,6 +178,13 @@ def _variants(case, rng):
             if spec.dtypes[c] == 'int64' and all(isinstance(row[c], int) and abs(row[c]) < 2 ** 31 for row in spec.cells) and spec.col_kind != 'hier2':
                 try:
                     out.append(('dtype_float', base.astype[spec.cols[c]](float)))
+                except Exception:
+                    pass
+            if (set(spec.dtypes) <= {'int64', 'float64'} and len(set(spec.dtypes)) == 2 and spec.col_kind != 'hier2'
+                    and all(isinstance(v, float) or abs(v) < 2 ** 31 for row in spec.cells for v in row)):
+                # the same values in ONE float64 block: equal unless dtypes are compared, whichever side is asked
+                try:
+                    out.append(('one_float_block', sf.Frame(base.values.astype(float), index=base.index, columns=base.columns, name=base.name)))
                 except Exception:
                     pass
             if nr >= 2 and spec.row_kind in ('str', 'int'):
